@@ -286,6 +286,7 @@ class World:
     def apply(self, toks):
         self.events = []
         self.early = []
+        self._callers_lists = []
         try:
             self._do(toks)
             return 'ok'
@@ -293,14 +294,20 @@ class World:
             raise
         except Exception as e:  # noqa
             return exn_class(e)
+        finally:
+            for mine in self._callers_lists:
+                del mine[:]
 
-    @staticmethod
-    def _as_iterable(items, toks):
+    def _as_iterable(self, items, toks):
         """the bulk calls and the reorder setters accept any iterable: hand the same elements over as a list,
-        a tuple, a one-shot iterator or a generator (chosen deterministically from the op text)"""
+        a tuple, a one-shot iterator or a generator (chosen deterministically from the op text). A list handed
+        over stays the CALLER'S list: after the call returns (or raises) the harness empties it - the API must
+        have taken a copy, whatever the caller does to its own list later must not reach the netlist"""
         k = sum(len(x) + (ord(x[-1]) if x else 0) for x in toks) % 4
         if k == 0:
-            return list(items)
+            mine = list(items)
+            self._callers_lists.append(mine)
+            return mine
         if k == 1:
             return tuple(items)
         if k == 2:
@@ -330,10 +337,15 @@ class World:
             props, rest = self._props(t[4:])
             items, ref = int(rest[0]), self.obj(rest[1])
             f = getattr(p, REL[rel][5])
+            # the bundle arguments spelled out with the values they default to (half of the calls, chosen from the
+            # op text): is_scalar=True is what a new bundle stores anyway, also when several pins / wires follow
+            kw = {}
+            if rel in ('ports', 'cables') and (len(t[3]) + items) % 2 == 0:
+                kw = dict(is_scalar=True, is_downto=True, lower_index=0)
             if rel == 'ports':
-                f(name=nm, properties=props, pins=items or None)
+                f(name=nm, properties=props, pins=items or None, **kw)
             elif rel == 'cables':
-                f(name=nm, properties=props, wires=items or None)
+                f(name=nm, properties=props, wires=items or None, **kw)
             elif rel == 'children':
                 f(name=nm, properties=props, reference=ref)
             else:
